@@ -735,6 +735,17 @@ class Interp:
         return LArr(n, get, dtype=dtype)
 
     # ------------------------------------------------------------------------------------------ scalar arithmetic
+    EPS = z3.RealVal("1/9007199254740992")  # 2^-53: unit roundoff of IEEE-754 double
+
+    def fl(self, t):
+        """FPSTD mode: the standard model of floating-point rounding, fl(x op y) = (x op y)(1 + d), |d| <= 2^-53 (no overflow /
+        underflow).  Integer-sorted results and specification expressions are exact."""
+        if self.mode != "FPSTD" or self.spec_mode or not z3.is_real(t):
+            return t
+        d = fresh("rnd", z3.RealSort())
+        self.facts.append(z3.And(-self.EPS <= d, d <= self.EPS))
+        return t * (1 + d)
+
     def _is_inf(self, x):
         return isinstance(x, float) and x in (float("inf"), float("-inf"))
 
@@ -772,15 +783,15 @@ class Interp:
             return Opaque("string-op")
         za, zb = to_z3num(a), to_z3num(b)
         if isinstance(op, ast.Add):
-            return za + zb if za.sort() == zb.sort() else to_real(za) + to_real(zb)
+            return self.fl(za + zb if za.sort() == zb.sort() else to_real(za) + to_real(zb))
         if isinstance(op, ast.Sub):
-            return za - zb if za.sort() == zb.sort() else to_real(za) - to_real(zb)
+            return self.fl(za - zb if za.sort() == zb.sort() else to_real(za) - to_real(zb))
         if isinstance(op, ast.Mult):
-            return za * zb if za.sort() == zb.sort() else to_real(za) * to_real(zb)
+            return self.fl(za * zb if za.sort() == zb.sort() else to_real(za) * to_real(zb))
         if isinstance(op, ast.Div):
             if self.definedness:
                 self.oblige("defined", "div-by-zero@L%s" % getattr(node, "lineno", "?"), zb != 0, getattr(node, "lineno", None))
-            return to_real(za) / to_real(zb)
+            return self.fl(to_real(za) / to_real(zb))
         if isinstance(op, ast.Pow):
             cb = concrete_int(b) if not isinstance(b, float) else (int(b) if float(b).is_integer() else None)
             if cb is not None and 0 <= cb <= 8:
